@@ -257,6 +257,9 @@ func (V *Verifier) verifyFunc1(fn *ssa.Function, con *Contract) (res *FuncResult
 		}
 		var names []string
 		for c := range changed {
+			if strings.HasPrefix(c, "Rv:") {
+				continue // ghost state of range iterators: invisible to callers
+			}
 			if _, r := restrict[c]; !declared[c] || r {
 				names = append(names, c)
 			}
